@@ -952,3 +952,80 @@ pub fn inputs(rng: &mut Rng, thorough: bool) -> Vec<Vec<u8>> {
     }
     v
 }
+
+/// Cyclic simultaneous systems of products: every x_i is replaced by a product (or sum of products)
+/// of other x's, all "at once" (computed into scratch cells first, then moved back). After
+/// optimisation this is one simultaneous assignment with n entries, i.e. n values alive at once,
+/// each a `mul tmp, mem, mem`.
+pub fn cyclic_products(rng: &mut Rng) -> String {
+    let n = rng.range(3, 17);
+    let mut b = Builder::new(rng, 2 * n + 3, false, 100_000);
+    let h1 = 2 * n;
+    let h2 = 2 * n + 1;
+    for c in 0..n {
+        if b.rng.chance(3, 4) {
+            b.input(c);
+        } else {
+            let v = b.rng.range(1, 3);
+            b.add(c, v);
+        }
+    }
+    let in_loop = b.rng.chance(1, 3);
+    let ctr = 2 * n + 2;
+    if in_loop {
+        b.add(ctr, 2);
+        b.goto(ctr);
+        b.out.push('[');
+    }
+    for i in 0..n {
+        let t = n + i;
+        let terms = if b.rng.chance(1, 4) { 2 } else { 1 };
+        for _ in 0..terms {
+            let a = (i + b.rng.range(1, n - 1)) % n;
+            let c = (i + b.rng.range(1, n - 1)) % n;
+            if a == c {
+                // square through a copy
+                b.add_mul(h1, a, 1, h2);
+                b.goto(h1);
+                b.out.push('[');
+                b.add(h1, -1);
+                b.add_mul(t, a, 1, h2);
+                b.goto(h1);
+                b.out.push(']');
+            } else {
+                b.goto(a);
+                b.out.push('[');
+                b.add(a, -1);
+                b.add(h1, 1);
+                b.goto(c);
+                b.out.push('[');
+                b.add(c, -1);
+                b.add(t, 1);
+                b.add(h2, 1);
+                b.goto(c);
+                b.out.push(']');
+                b.drain(h2, &[(c, 1)], 1);
+                b.goto(a);
+                b.out.push(']');
+                b.drain(h1, &[(a, 1)], 1);
+            }
+        }
+        if b.rng.chance(1, 6) {
+            let k = b.rng.range(1, 3);
+            b.add(t, k);
+        }
+    }
+    for i in 0..n {
+        b.clear(i);
+        b.drain(n + i, &[(i, 1)], 1);
+    }
+    if in_loop {
+        b.add(ctr, -1);
+        b.goto(ctr);
+        b.out.push(']');
+    }
+    for c in 0..n {
+        b.output(c);
+    }
+    b.out
+}
